@@ -18,10 +18,10 @@ func NewEnv() *Env {
 	return &Env{nil, map[string]*Val{}, map[string]interface{}{}, nil}
 }
 
+// Inherit 返回以 parent 为父环境的视图, 不修改 e 本身, 同一个环境可以反复用于多次执行
 func (e *Env) Inherit(parent *Env) *Env {
 	util.Assert(e.parent == nil, "env.parent != nil")
-	e.parent = parent
-	return e
+	return &Env{parent, e.ctx, e.fnTbl, e.Dgb}
 }
 
 func (e *Env) Derive() *Env {
